@@ -1290,15 +1290,26 @@ type ipStageC struct {
 func ipPathsC(al *aliasC, v ssa.Value) []ipStageC {
 	root, p := accessPath(unwrap(v))
 	out := []ipStageC{{root, p}}
-	for i := 0; i < 6; i++ {
-		if ld, ok := root.(*ssa.Alloc); ok { // spilled parameter
+	for i := 0; i < 8; i++ {
+		if ld, ok := root.(*ssa.Alloc); ok { // variable cell with a single store: what it holds
 			if sv := spillOfC(ld); sv != nil {
-				if _, isP := sv.(*ssa.Parameter); isP {
-					root = sv
-					out = append(out, ipStageC{root, p})
-					continue
-				}
+				r2, p2 := accessPath(unwrap(sv))
+				root = r2
+				p = append(append([]string{}, p2...), p...)
+				out = append(out, ipStageC{root, p})
+				continue
 			}
+		}
+		if fv, ok := root.(*ssa.FreeVar); ok { // captured variable of a closure: what the enclosing function bound
+			b := freeVarBindingC(fv)
+			if b == nil {
+				break
+			}
+			r2, p2 := accessPath(unwrap(b))
+			root = r2
+			p = append(append([]string{}, p2...), p...)
+			out = append(out, ipStageC{root, p})
+			continue
 		}
 		pr, ok := root.(*ssa.Parameter)
 		if !ok || pr.Parent() == nil || !al.p.IsRuleSite(pr.Parent()) {
@@ -1416,4 +1427,114 @@ func ipHasSuffixC(al *aliasC, v ssa.Value, suffix ...string) bool {
 		}
 	}
 	return false
+}
+
+// tableFieldFuncsC resolves a called value of the form G[i].f — a function-typed field of an element
+// of a package-level slice/array G initialised with a constant literal and never written elsewhere —
+// to the functions stored in field f of all elements.
+func tableFieldFuncsC(v ssa.Value) ([]*ssa.Function, bool) {
+	ld, ok := v.(*ssa.UnOp)
+	if !ok || ld.Op != token.MUL {
+		return nil, false
+	}
+	fa, ok := ld.X.(*ssa.FieldAddr)
+	if !ok {
+		return nil, false
+	}
+	ia, ok := fa.X.(*ssa.IndexAddr)
+	if !ok {
+		return nil, false
+	}
+	var g *ssa.Global
+	switch x := ia.X.(type) {
+	case *ssa.Global:
+		g = x
+	case *ssa.UnOp:
+		g, _ = x.X.(*ssa.Global)
+	}
+	if g == nil || g.Pkg == nil {
+		return nil, false
+	}
+	ini := g.Pkg.Func("init")
+	if ini == nil {
+		return nil, false
+	}
+	// the backing array stored into G by the initialiser
+	var arr *ssa.Alloc
+	for _, b := range ini.Blocks {
+		for _, in := range b.Instrs {
+			st, isSt := in.(*ssa.Store)
+			if !isSt || st.Addr != ssa.Value(g) {
+				continue
+			}
+			sl, isSl := st.Val.(*ssa.Slice)
+			if !isSl || arr != nil {
+				return nil, false
+			}
+			arr, _ = sl.X.(*ssa.Alloc)
+		}
+	}
+	if arr == nil {
+		return nil, false
+	}
+	// no other function of the package writes G or through G
+	for _, mem := range g.Pkg.Members {
+		f, isF := mem.(*ssa.Function)
+		if !isF || f == ini {
+			continue
+		}
+		for _, b := range f.Blocks {
+			for _, in := range b.Instrs {
+				if st, isSt := in.(*ssa.Store); isSt {
+					if st.Addr == ssa.Value(g) {
+						return nil, false
+					}
+					root, _ := accessPath(st.Addr)
+					if i2, isIA := root.(*ssa.IndexAddr); isIA {
+						if l2, isLd := i2.X.(*ssa.UnOp); isLd && l2.X == ssa.Value(g) {
+							return nil, false
+						}
+					}
+				}
+			}
+		}
+	}
+	var out []*ssa.Function
+	n := 0
+	for _, rf := range refs(arr) {
+		ea, isIA := rf.(*ssa.IndexAddr)
+		if !isIA {
+			continue
+		}
+		n++
+		found := false
+		for _, r2 := range refs(ea) {
+			f2, isFA := r2.(*ssa.FieldAddr)
+			if !isFA || f2.Field != fa.Field {
+				continue
+			}
+			for _, r3 := range refs(f2) {
+				st, isSt := r3.(*ssa.Store)
+				if !isSt || st.Addr != ssa.Value(f2) {
+					continue
+				}
+				var fn *ssa.Function
+				switch y := unwrap(st.Val).(type) {
+				case *ssa.Function:
+					fn = y
+				case *ssa.MakeClosure:
+					fn, _ = y.Fn.(*ssa.Function)
+				}
+				if fn == nil {
+					return nil, false
+				}
+				out = append(out, fn)
+				found = true
+			}
+		}
+		if !found {
+			return nil, false // an element without that field set: nil function
+		}
+	}
+	return out, n > 0
 }
